@@ -196,7 +196,11 @@ def call_impl(cmd, ver, xm, pyargs, by_keyword=False, omit_defaults=False):
 
 
 def _same(a, b):
-    return type(a) is type(b) and (a == b or (isinstance(a, float) and a != a and b != b))
+    if type(a) is not type(b):
+        return False
+    if isinstance(a, float):
+        return f64_bits(a) == f64_bits(b)          # -0.0 is not the default 0.0
+    return a == b
 
 
 @contextlib.contextmanager
@@ -943,9 +947,13 @@ def oracle(ctx, deep=False):
                               'expected': (port << 4) | 12 | chan, 'observed': pk.header})
     # de-duplicate by class, keep the smallest witness
     best = {}
+
+    def rank(f):
+        r = f['case'].get('args_readable', '')
+        return (('inf' in r) or ('nan' in r) or ('e+' in r), len(r))
     for f in fails:
         k = f['class']
-        if k not in best or len(repr(f['case'])) < len(repr(best[k]['case'])):
+        if k not in best or rank(f) < rank(best[k]):
             best[k] = f
     return {'evaluations': n, 'failures': list(best.values()),
             'rule': 'reference decoder written from the firmware structs applied to packets of the real methods; decoded fields vs '
